@@ -21,8 +21,8 @@ TRUSTED = [
     "labelled-output model of C03",
     "Dataset equality is checked on the real objects (broadcast_equals up to axis order, coordinates, attributes); "
     "xarray / pandas / cloudpickle are library behaviour",
-    "constants given only at sow time are not persisted with the crop and cannot appear in the reaped attributes "
-    "(documented limitation, not generated)",
+    "constants given at sow time are recorded with the crop (repair D29) and describe the reaped data exactly as "
+    "the call-time constants of a direct run do; generated in a third of the runner / harvester cases",
 ]
 RULE = ("farmer kind in {Runner, Harvester, Sampler} x runner descriptions (1-3 variables, array outputs with an internal "
         "dimension given by var_coords or by a constant, resources, attrs) x grids / case sets x batch sizes x shuffle x "
@@ -111,6 +111,10 @@ def one_case(c, tmp, idx):
            "constants": {k: ("list" if isinstance(v, list) else v) for k, v in constants.items()},
            "resources": resources, "attrs": attrs, "shuffle": shuffle, "to_df": to_df, "overwrite": pol,
            "reload": reload_mode}
+    # constants given for THIS sow only (they override the runner's own and must describe the reaped data,
+    # as the call-time constants of a direct run do)
+    sow_consts = {"k1": rng.randint(5, 9)} if (kind_f != "Sampler" and rng.random() < 0.3) else {}
+    rep["sow_constants"] = dict(sow_consts)
     n = sw.n_settings()
     bs = rng.randint(1, max(1, n))
     runner = mk_runner()
@@ -128,10 +132,11 @@ def one_case(c, tmp, idx):
             crop.sow_samples(rng.randint(2, 6), verbosity=0)
         elif sw.cases and rng.random() < 0.5:
             crop.shuffle = shuffle
-            crop.sow_cases(tuple(sw.case_args), [tuple(x) for x in sw.cases], combos=dict(sw.combos) or None, verbosity=0)
+            crop.sow_cases(tuple(sw.case_args), [tuple(x) for x in sw.cases], combos=dict(sw.combos) or None,
+                           constants=dict(sow_consts) or None, verbosity=0)
         else:
             crop.sow_combos(dict(sw.combos) if sw.combos else None, cases=sw.cases_dicts() if sw.cases else None,
-                            shuffle=shuffle, verbosity=0)
+                            constants=dict(sow_consts) or None, shuffle=shuffle, verbosity=0)
         rep["batches"] = crop.num_batches
         if reload_mode == "process":
             env = dict(os.environ, XV_VERIF=core.VERIF)
@@ -172,9 +177,10 @@ def one_case(c, tmp, idx):
     from xyzpy.gen.prepare import parse_combos
     if sw.cases:
         direct = direct_runner.run_cases([tuple(x) for x in sw.cases], fn_args=tuple(sw.case_args),
-                                         combos=parse_combos(dict(sw.combos)), to_df=to_df, verbosity=0)
+                                         combos=parse_combos(dict(sw.combos)), constants=dict(sow_consts),
+                                         to_df=to_df, verbosity=0)
     else:
-        direct = direct_runner.run_combos(dict(sw.combos), to_df=to_df, verbosity=0)
+        direct = direct_runner.run_combos(dict(sw.combos), constants=dict(sow_consts), to_df=to_df, verbosity=0)
     if to_df:
         cols = sorted(direct.columns)
         if sorted(reaped.columns) != cols or sorted(map(tuple, reaped[cols].values.tolist())) != sorted(map(tuple, direct[cols].values.tolist())):
@@ -193,9 +199,10 @@ def one_case(c, tmp, idx):
         other = xyzpy.Harvester(mk_runner(), data_name=os.path.join(d, "direct_side"))
         if sw.cases:
             other.harvest_cases([tuple(x) for x in sw.cases], fn_args=tuple(sw.case_args),
-                                combos=parse_combos(dict(sw.combos)), overwrite=pol, verbosity=0)
+                                combos=parse_combos(dict(sw.combos)), overwrite=pol, constants=dict(sow_consts),
+                                verbosity=0)
         else:
-            other.harvest_combos(dict(sw.combos), overwrite=pol, verbosity=0)
+            other.harvest_combos(dict(sw.combos), overwrite=pol, constants=dict(sow_consts), verbosity=0)
         a = xyzpy.load_ds(os.path.join(d, "crop_side"))
         b = xyzpy.load_ds(os.path.join(d, "direct_side"))
         ok, why = ds_equal(b, a)
@@ -466,7 +473,7 @@ def run(tier, seed):
     c.cov["disagreements_checked"] = 0
     c.notes.append("the dynamic content of this property is compared on the real objects (crop side vs direct side); "
                    "the Coq side proves the description wiring and composes C04 with the labelling model")
-    c.assumptions = ["the function is deterministic; constants are given to the runner (not only at sow time)"]
+    c.assumptions = ["the function is deterministic"]
     return c.finish(b, PROP_FILE, TRUSTED, RULE)
 
 
